@@ -7,6 +7,7 @@ package vrand
 import (
 	"crypto/sha256"
 	"encoding/binary"
+	"errors"
 	"io"
 	"sync"
 )
@@ -16,10 +17,28 @@ type Stream struct {
 	mu        sync.Mutex
 	Delivered int
 	Reads     int
+	FailAt    int // the stream ends (with ErrDown, for good) after this many bytes; <0 = never
+}
+
+// ErrDown is what the stand-in reports once it has been told to fail.
+var ErrDown = errors.New("vrand: the stand-in for the operating-system generator is down")
+
+// Down reports whether the default stream has started failing.
+func Down() bool {
+	defaultStream.mu.Lock()
+	defer defaultStream.mu.Unlock()
+	return defaultStream.FailAt >= 0 && defaultStream.Delivered >= defaultStream.FailAt
+}
+
+// SetFailAt makes the default stream fail after n bytes in total.
+func SetFailAt(n int) {
+	defaultStream.mu.Lock()
+	defaultStream.FailAt = n
+	defaultStream.mu.Unlock()
 }
 
 // Reader plays the role of crypto/rand.Reader.
-var Reader io.Reader = &Stream{}
+var Reader io.Reader = &Stream{FailAt: -1}
 
 // ByteAt is the stream content at offset i (SHA-256 in counter mode: windows
 // of 16+ bytes are unique for all practical purposes).
@@ -33,12 +52,21 @@ func ByteAt(i int) byte {
 func (s *Stream) Read(p []byte) (int, error) {
 	s.mu.Lock()
 	defer s.mu.Unlock()
-	for i := range p {
+	s.Reads++
+	n := len(p)
+	var err error
+	if s.FailAt >= 0 && s.Delivered+n > s.FailAt {
+		n = s.FailAt - s.Delivered
+		if n < 0 {
+			n = 0
+		}
+		err = ErrDown
+	}
+	for i := 0; i < n; i++ {
 		p[i] = ByteAt(s.Delivered + i)
 	}
-	s.Delivered += len(p)
-	s.Reads++
-	return len(p), nil
+	s.Delivered += n
+	return n, err
 }
 
 // Read mirrors crypto/rand.Read.
